@@ -44,7 +44,7 @@ def keyAddrOf (o : Oracle) (pk : Bytes) : Bytes :=
 inductive BlobClass
   | empty                       -- nil or empty blob: ignored
   | hdrFromProtoErr             -- parsed as pb.SignedHeader but FromProto failed: consumed, nothing happens
-  | hdrUnexpectedSequencer      -- (unreachable with the current ValidateBasic: kept for fidelity)
+  | hdrUnexpectedSequencer      -- a valid, self-consistent header of ANOTHER proposer: consumed, nothing happens
   | hdrAccepted (h : SignedHeader)
   | dataAccepted (d : SignedData)
   | ignored                     -- neither a valid header nor valid signed data
@@ -102,7 +102,7 @@ def libVerify (tr un : SignedHeader) : Bool :=
   decide (un.header.proposerAddress = tr.header.proposerAddress) &&
   (!decide (tr.header.height + 1 = un.header.height) || decide (tr.header.hash = un.header.lastHeaderHash))
 
-inductive LibVerdict | accepted | rejDecode | rejValidate | rejVerify
+inductive LibVerdict | accepted | rejDecode | rejValidate | rejVerify | rejGenesis | panics
   deriving Repr, DecidableEq, Inhabited
 
 /-- `hdr.Validate()` as go-header resolves it since /repo 35dfc53: `SignedHeader.Validate = ValidateBasic`
@@ -131,6 +131,60 @@ def p2pLibAdmit (o : Oracle) (trusted : Option SignedHeader) (bs : Bytes) : LibV
 def p2pLibAdmitOld (o : Oracle) (trusted : Option SignedHeader) (bs : Bytes) : LibVerdict :=
   p2pLibAdmitWith libValidateOld o trusted bs
 
+/-- the FIRST header of the P2P header store of a node without a trusted hash (`SyncService.setFirstAndStart`):
+whatever a peer answers for the initial height goes through the exchange session's `Validate()` and then
+`initStoreAndStartSyncer`, which since /repo 5bb4988 requires the genesis proposer address. Everything received
+later is only verified against the header before it (`p2pLibAdmit`). -/
+def p2pBootAdmit (o : Oracle) (proposer : Bytes) (bs : Bytes) : LibVerdict :=
+  match headerStage o bs with
+  | .ok sh =>
+    if !libValidate o sh then .rejValidate
+    else if sh.header.proposerAddress ≠ proposer then .rejGenesis
+    else .accepted
+  | _ => .rejDecode
+
+/-- the same before /repo 5bb4988: the initial header was never compared with genesis -/
+def p2pBootAdmitOld (o : Oracle) (bs : Bytes) : LibVerdict :=
+  match headerStage o bs with
+  | .ok sh => if !libValidate o sh then .rejValidate else .accepted
+  | _ => .rejDecode
+
+/-! ### P2P data items (`types.Data` as go-header's header type of the data sync service) -/
+
+/-- `Data.Validate()` since /repo 8e620ca: the metadata must be present (`ChainID`, `Height`, `Time` read it) -/
+def libValidateData (d : Data) : Bool := d.metadata.isSome
+
+/-- `header.Verify(trusted, untrusted)` for data: the general checks on the metadata, then `Data.Verify`: the
+received item's `LastDataHash` is the hash of the trusted one (whatever the heights) -/
+def libVerifyData (tr un : Data) : Bool :=
+  let tm := tr.metadata.getD {}
+  let um := un.metadata.getD {}
+  decide (um.chainId = tm.chainId) && decide (tm.height < um.height) &&
+  !decide (int64Of um.time < int64Of tm.time) && !decide (clockHorizon < int64Of um.time) &&
+  decide (tr.hash = um.lastDataHash)
+
+/-- a data item received over gossip / an exchange session: `New()`, `UnmarshalBinary`, `Validate()`, the
+accessors go-header reads (`Height`, `ChainID`, `Time`), then `Verify` against the trusted item if there is one -/
+def p2pLibDataAdmit (trusted : Option Data) (bs : Bytes) : LibVerdict :=
+  match Data.decode bs with
+  | none => .rejDecode
+  | some d =>
+    if !libValidateData d then .rejValidate
+    else match trusted with
+      | none => .accepted
+      | some t => if libVerifyData t d then .accepted else .rejVerify
+
+/-- the same before /repo 8e620ca: `Validate()` accepted everything and the accessors dereferenced the missing
+metadata — the node panicked -/
+def p2pLibDataAdmitOld (trusted : Option Data) (bs : Bytes) : LibVerdict :=
+  match Data.decode bs with
+  | none => .rejDecode
+  | some d =>
+    if d.metadata.isNone then .panics
+    else match trusted with
+      | none => .accepted
+      | some t => if libVerifyData t d then .accepted else .rejVerify
+
 /-- `handlePotentialData` -/
 def classifyData (o : Oracle) (proposer : Bytes) (bs : Bytes) : BlobClass :=
   match SignedData.decode (fun _ => o.keyOk) bs with
@@ -138,6 +192,17 @@ def classifyData (o : Oracle) (proposer : Bytes) (bs : Bytes) : BlobClass :=
   | some sd => if sd.data.txs.isEmpty then .ignored
                else if sd.data.metadata.isNone then .ignored      -- signed data without metadata is dropped
                else if validSignedData o proposer sd then .dataAccepted sd else .ignored
+
+/-- `handlePotentialData` BEFORE /repo 76641b6 (no metadata guard): self-consistently signed data with transactions
+but without metadata passed `isValidSignedData` and the handler then dereferenced the nil metadata in a log call —
+`none` = the scanning goroutine panics. Kept to state what the current classifier avoids. -/
+def classifyDataOld (o : Oracle) (proposer : Bytes) (bs : Bytes) : Option BlobClass :=
+  match SignedData.decode (fun _ => o.keyOk) bs with
+  | none => some .ignored
+  | some sd => if sd.data.txs.isEmpty then some .ignored
+               else if validSignedData o proposer sd then
+                 (if sd.data.metadata.isNone then none else some (.dataAccepted sd))
+               else some .ignored
 
 /-- `handlePotentialHeader`, falling through to `handlePotentialData` -/
 def classify (o : Oracle) (proposer : Bytes) (bs : Bytes) : BlobClass :=
@@ -161,7 +226,6 @@ structure RNode where
   dMarks : List (Bytes × Nat) := []
   seenH : List Bytes := []
   seenD : List Bytes := []
-  crashed : Bool := false     -- the scanning goroutine panicked (process crash)
   deriving Repr, Inhabited
 
 inductive Event
